@@ -404,6 +404,11 @@ func c15Rnd(v c15Vec, id int, dir string) []c15Obs {
 		}
 	}
 	nt := r.Intn(8)
+	if v.I%5 == 0 {
+		// more triangles than one buffer flush (256): the writer receives several batches, and vertices are
+		// shared across the batch boundaries
+		nt = 257 + r.Intn(500)
+	}
 	var ts []*sdf.Triangle3
 	dist := map[[3]float32]bool{}
 	for i := 0; i < nt; i++ {
